@@ -27,6 +27,12 @@ CLAIMED["C14"] = ("4/C14", "Real writer -> list-backed stream -> real reader rou
                   "pooled strings, inline UTF-8 strings, _ZoneYearOffset (all fields); canonical compact forms of milliseconds and transitions "
                   "asserted on the bytes written; the literal re-encoding of every rule-based zone of both database files is a labelled concrete premise.",
                   "composite lemmas use primitive channels whose contracts are the primitive lemmas; recurrence/alternating-map/precalculated-zone round trips pending")
+CLAIMED["C09"] = ("4/C09", "plus_days/plus_weeks: the real _FixedLengthDatePeriodField.add over an abstract calendar (any adjacent year "
+                  "lengths >= the measured shortest real year, any month/day-of-year position, |n| <= 10**7) plus per-calendar fast/slow path lemmas "
+                  "in (year, day-of-year) coordinates; plus_months/plus_years vs the (year*M + month) reference with day clamping and overflow, "
+                  "months-between maximality, Period.between for all 63 time-unit subsets over all pairs of times, YearMonth between, "
+                  "normalize / to_duration over the fixed-length total.",
+                  "LocalDate/LocalDateTime between with multi-unit date subsets, Hebrew/Badi month arithmetic pending; per-calendar lemmas use seeded windows in quick")
 NOT_BUILT = {}
 
 NA_REASON = "check not built yet in this round (design in DESIGN.md section 4); no claim is made"
